@@ -163,7 +163,16 @@ def gen_blocks(rng, mols, candidates):
         payload[0] += 1
         return payload[0]
 
-    def res_sel():
+    def res_sel(idxs):
+        """mostly aimed at a residue of a molecule the block addresses (so that ranges overlap, touch and
+        just miss real residues and several directives select the same residue), sometimes blind"""
+        pool = [node for i in idxs if i < n for node in mols[i]["nodes"]]
+        if pool and rng.random() < 0.75:
+            node = rng.choice(pool)
+            resname = node[2] if rng.random() < 0.85 else rng.choice(RESNAMES)
+            lo = node[1] - rng.choice([0, 0, 1, 2, -1])
+            hi = node[1] + rng.choice([1, 1, 2, 3, 0])
+            return resname, max(lo, 0), max(hi, 0)
         resname = rng.choice(RESNAMES + ["RL"])
         lo = rng.randint(0, 6)
         hi = lo + rng.choice([0, 1, 1, 2, 3, 6])
@@ -173,7 +182,7 @@ def gen_blocks(rng, mols, candidates):
         name = rng.choice(names)
         lo = rng.randint(0, n)
         hi = min(n + 2, lo + rng.choice([0, 1, 1, 2, 3, n]))
-        if rng.random() < 0.45:
+        if rng.random() < 0.65:
             # a block written for a run of equally named molecules (or part of it)
             i = rng.randrange(n)
             name = mols[i]["name"]
@@ -185,8 +194,8 @@ def gen_blocks(rng, mols, candidates):
         lines = []
         idxs = [i for i in range(lo, hi)]
         same_name = all(i < n and mols[i]["name"] == name for i in idxs)
-        for _ in range(rng.randint(1, 4)):
-            kind = rng.choice(["geometry", "geometry", "rw", "dist", "dist", "pers"])
+        for _ in range(rng.randint(1, 5)):
+            kind = rng.choice(["geometry", "geometry", "geometry", "rw", "dist", "dist", "pers"])
             if kind in ("dist", "pers"):
                 usable = [i for i in idxs if i < n]
                 if not usable or hi > n:
@@ -219,10 +228,10 @@ def gen_blocks(rng, mols, candidates):
                 if keys & rw_seen and "rw-restriction-last-line-wins" not in candidates:
                     continue
                 rw_seen |= keys
-                resname, rlo, rhi = res_sel()
+                resname, rlo, rhi = res_sel(idxs)
                 lines.append(["rw", resname, rlo, rhi, next_payload()])
             else:
-                resname, rlo, rhi = res_sel()
+                resname, rlo, rhi = res_sel(idxs)
                 lines.append(["geometry", resname, rlo, rhi, next_payload()])
         blocks.append(dict(name=name, lo=lo, hi=hi, lines=lines))
     return blocks
@@ -395,7 +404,8 @@ def judge_build(ctx, case, answers):
              sample=dict(build_file=replay["text"], molecules=names_of(case["mols"]),
                          annotated=[a for a in impl.get("ann", []) if a[2] or a[3]][:6], dist=impl.get("dist"))
              if selected > 2 and ctx.rng.random() < 0.1 else None,
-             stream="build", build_ok=impl["ok"], kinds="+".join(kinds) or "none", nblocks=len(case["blocks"]))
+             stream="build", build_ok=impl["ok"],
+             max_restraints_on_a_node=max([len(a[2]) for a in impl.get("ann", [])] + [0]), kinds="+".join(kinds) or "none", nblocks=len(case["blocks"]))
 
 
 # ------------------------------------------------------------------------------------------------ B. specs
@@ -665,10 +675,10 @@ def gen_lig_pairs(rng, mols, candidates):
         j = rng.choice(ligs)
         lnode = rng.choice(mols[j]["nodes"])
         lig_name = mols[j]["name"]
-        if rng.random() < 0.1 and "lig-name-index-mismatch-accepted" in candidates:
-            lig_name = mols[hosts[0]]["name"]
         lig_spec = [lig_name if rng.random() < 0.85 else None, j if rng.random() < 0.4 else None,
                     lnode[2] if rng.random() < 0.5 else None, lnode[1] if rng.random() < 0.3 else None]
+        if rng.random() < 0.1 and "lig-name-index-mismatch-accepted" in candidates:
+            lig_spec[0], lig_spec[1] = mols[hosts[0]]["name"], j     # index of a ligand, name of another molecule
         if lig_spec[0] is None and lig_spec[1] is None and rng.random() < 0.8:
             lig_spec[0] = mols[j]["name"]
         pairs.append([render_py(mol_spec), render_py(lig_spec)])
@@ -710,7 +720,8 @@ def lig_exec(work, system, pairs):
     reqs = [dict(op="lig", mols=mols, pairs=pairs)]
     if impl["ok"]:
         reqs.append(dict(op="detach", mols=impl["mols"], pos=pos_before))
-        reqs.append(dict(op="lig_spec", orig=mols, mols=impl["mols"], final=final, pos=pos_before, pos_after=pos_after))
+        reqs.append(dict(op="lig_spec", orig=mols, mols=impl["mols"], final=final, pos=pos_before, pos_after=pos_after,
+                         edges=impl["edges"], pairs=pairs))
     return dict(kind="lig", replay=replay, impl=impl, reqs=reqs, mols=mols, final=final, pos_after=pos_after)
 
 
@@ -734,8 +745,17 @@ def judge_lig(ctx, case, answers):
                        dict(mols=case["final"], pos=sorted(case["pos_after"])),
                        dict(mols=detach["mols"], pos=sorted(detach["pos"])), replay)
         if not spec["holds"]:
-            ctx.oracle_fail("ligand-round-trip", "-lig %s: after attach / build / detach %s" % (replay["pairs"], spec["why"]),
-                            replay)
+            shape = "ligand-round-trip"
+            if spec["why"].startswith("the attached nodes are not the ones"):
+                # a ligand specification with index AND a name that is not the name of that molecule?
+                names = names_of(case["mols"])
+                for _, lig_text in replay["pairs"]:
+                    parsed = py_parse(lig_text)
+                    if parsed["ok"] and parsed["spec"][0] is not None and parsed["spec"][1] is not None \
+                            and parsed["spec"][1] < len(names) and names[parsed["spec"][1]] != parsed["spec"][0]:
+                        shape = "lig-name-index-mismatch-accepted"
+            ctx.oracle_fail(shape, "-lig %s (molecules %s): after attach / build / detach %s"
+                            % (replay["pairs"], names_of(case["mols"]), spec["why"]), replay)
     ctx.case(json.dumps([replay["system"], replay["pairs"]], sort_keys=True) if nattached or not impl["ok"] else None,
              sample=dict(pairs=replay["pairs"], molecules=names_of(case["mols"]), defs=impl.get("defs"))
              if nattached and ctx.rng.random() < 0.05 else None,
